@@ -241,7 +241,16 @@ class Env(object):
             v = self.bx(e["e"], o, loops)
             if isinstance(v, int):
                 v = vsc.signed(int(v))
-            return v.inside(vsc.rangelist(*_rl_items(e["rl"])))
+            items = []
+            for it in e["rl"]:
+                # items may be literals or plain (non-random) field references
+                if isinstance(it, (list, tuple)):
+                    items.append(tuple(self.path(x["p"], o, loops) if isinstance(x, dict) else x for x in it))
+                elif isinstance(it, dict):
+                    items.append(self.path(it["p"], o, loops))
+                else:
+                    items.append(it)
+            return v.inside(vsc.rangelist(*items))
         if t == "inrl":
             v = self.bx(e["e"], o, loops)
             return v.inside(object.__getattribute__(o, e["name"]))
